@@ -483,19 +483,24 @@ Proof.
 Qed.
 
 (** ---- continuity ---- *)
+Lemma prev_matches_spec b x : prev_matches b x = true <-> spec_prev b = Some x.
+Proof.
+  unfold prev_matches, spec_prev, wf32. destruct (b_hdr b) as [hd|].
+  - split; [intros H; f_equal; lia | intros H; inversion H; lia].
+  - destruct (flen (b_prev b) =? 32); cbn [andb]; [|split; discriminate].
+    split; [intros H; f_equal; lia | intros H; inversion H; lia].
+Qed.
+
 Lemma continuity_ok b pm :
   check_continuity b (Some pm) = Ok tt -> p_height pm + 1 < U32 ->
   b_height b = p_height pm + 1 /\ spec_prev b = Some (p_hash pm).
 Proof.
-  unfold check_continuity, block_height, block_prev, sat_succ, spec_prev, wf32. intros H G.
+  unfold check_continuity, block_height, sat_succ. intros H G.
   destruct (b_height b <? U32) eqn:HB; [|discriminate]. cbn [bind] in H.
   replace (p_height pm + 1 <? U32) with true in H by lia.
   destruct (b_height b =? p_height pm + 1) eqn:HE; [|discriminate]. cbn [negb] in H.
   split; [lia|].
-  destruct (b_hdr b) as [hd|]; cbn [bind] in H.
-  - destruct (snd hd =? p_hash pm) eqn:PE; [|discriminate]. f_equal. lia.
-  - destruct (flen (b_prev b) =? 32); [|discriminate]. cbn [bind] in H.
-    destruct (fid (b_prev b) =? p_hash pm) eqn:PE; [|discriminate]. f_equal. lia.
+  destruct (prev_matches b (p_hash pm)) eqn:PM; [|discriminate]. apply prev_matches_spec; exact PM.
 Qed.
 
 Lemma wrong_height_rejected c keys nfs b pm :
@@ -507,18 +512,14 @@ Proof.
   replace (b_height b =? sat_succ (p_height pm)) with false by lia. reflexivity.
 Qed.
 
-Lemma wrong_prev_rejected c keys nfs b pm x :
-  b_height b < U32 -> b_height b = sat_succ (p_height pm) -> spec_prev b = Some x -> x <> p_hash pm ->
+Lemma wrong_prev_rejected c keys nfs b pm :
+  b_height b < U32 -> b_height b = sat_succ (p_height pm) -> spec_prev b <> Some (p_hash pm) ->
   scan_block c (Some pm) keys nfs b = Err (PrevHashMismatch (b_height b)).
 Proof.
-  intros HB HE SP NE. unfold Model.scan_block, check_continuity, block_height.
+  intros HB HE NE. unfold Model.scan_block, check_continuity, block_height.
   replace (b_height b <? U32) with true by lia. cbn [bind].
   replace (b_height b =? sat_succ (p_height pm)) with true by lia. cbn [negb].
-  unfold spec_prev, wf32 in SP. unfold block_prev.
-  destruct (b_hdr b) as [hd|].
-  - inversion SP; subst. cbn [bind]. replace (snd hd =? p_hash pm) with false by lia. reflexivity.
-  - destruct (flen (b_prev b) =? 32); [|discriminate]. inversion SP; subst. cbn [bind].
-    replace (fid (b_prev b) =? p_hash pm) with false by lia. reflexivity.
+  destruct (prev_matches b (p_hash pm)) eqn:PM; [apply prev_matches_spec in PM; contradiction | reflexivity].
 Qed.
 
 (** inconsistent tree-size metadata is rejected (never accepted) *)
@@ -535,7 +536,6 @@ Qed.
 Definition no_panic_guard (prior : option pmeta) (b : cblock) : Prop :=
   b_height b < U32
   /\ (b_hdr b <> None \/ flen (b_hash b) = 32)
-  /\ (prior <> None -> b_hdr b <> None \/ flen (b_prev b) = 32)
   /\ (forall t, In t (b_vtx b) -> flen (x_txid t) = 32)
   /\ (forall p, n_outs p b < U32).
 
@@ -553,16 +553,12 @@ Qed.
 
 Lemma scan_total c prior keys nfs b : no_panic_guard prior b -> scan_block c prior keys nfs b <> Panic.
 Proof.
-  intros (HB & HH & HP & HT & HN). unfold Model.scan_block.
+  intros (HB & HH & HT & HN). unfold Model.scan_block.
   apply bind_nopanic.
   - unfold check_continuity. destruct prior as [pm|]; [|discriminate].
     unfold block_height. replace (b_height b <? U32) with true by lia. cbn [bind].
     destruct (negb (b_height b =? sat_succ (p_height pm))); [discriminate|].
-    apply bind_nopanic.
-    + unfold block_prev. destruct (HP ltac:(discriminate)) as [X|X].
-      * destruct (b_hdr b); [discriminate | congruence].
-      * destruct (b_hdr b); [discriminate|]. rewrite X. discriminate.
-    + intros x _. destruct (negb (x =? p_hash pm)); discriminate.
+    destruct (negb (prev_matches b (p_hash pm))); discriminate.
   - intros _ _. unfold block_height. replace (b_height b <? U32) with true by lia. cbn [bind].
     apply bind_nopanic.
     + unfold block_hash. destruct HH as [X|X].
@@ -772,4 +768,9 @@ Proof. reflexivity. Qed.
 Lemma overflow_fixed dec nf_of :
   scan_block dec nf_of cfg1 (Some (Pm 9 2 (Some 4294967295) (Some 0) (Some 0))) [] empty_nfs blk_one_out
   = Err (TreeSizeOverflow Sapling 10).
+Proof. reflexivity. Qed.
+Lemma prev_hash_fixed dec nf_of :
+  scan_block dec nf_of cfg1 (Some (Pm 9 2 (Some 0) (Some 0) (Some 0))) [] empty_nfs
+             (Blk 10 (F 32 true 1) (F 31 true 2) 0 None [] None)
+  = Err (PrevHashMismatch 10).
 Proof. reflexivity. Qed.
